@@ -101,13 +101,24 @@ pub fn record(seed: u64, thorough: bool, shards: usize, prefix: &str) -> Value {
         let c = gen_color(&mut r);
         let e = (r.next() & 0xfff) as u32;
         let ee = effects_from_bits(e as u16);
-        let evs = [
+        let evs = vec![
             json!({"k":"set","op":"fg","st0":style_json(&s0),"arg":col_json(c),"st1":style_json(&s0.fg_color(c)),"get":col_json(s0.fg_color(c).get_fg_color())}),
             json!({"k":"set","op":"bg","st0":style_json(&s0),"arg":col_json(c),"st1":style_json(&s0.bg_color(c)),"get":col_json(s0.bg_color(c).get_bg_color())}),
             json!({"k":"set","op":"ul","st0":style_json(&s0),"arg":col_json(c),"st1":style_json(&s0.underline_color(c)),"get":col_json(s0.underline_color(c).get_underline_color())}),
             json!({"k":"set","op":"effects","st0":style_json(&s0),"arg":e,"st1":style_json(&s0.effects(ee)),"get":bits_of(s0.effects(ee).get_effects())}),
             json!({"k":"set","op":"or","st0":style_json(&s0),"arg":e,"st1":style_json(&(s0 | ee)),"get":0}),
             json!({"k":"set","op":"sub","st0":style_json(&s0),"arg":e,"st1":style_json(&(s0 - ee)),"get":0}),
+            // the assigning spellings are the same operations
+            {
+                let mut s1 = s0;
+                s1 |= ee;
+                json!({"k":"set","op":"or","spelling":"|=","st0":style_json(&s0),"arg":e,"st1":style_json(&s1),"get":0})
+            },
+            {
+                let mut s1 = s0;
+                s1 -= ee;
+                json!({"k":"set","op":"sub","spelling":"-=","st0":style_json(&s0),"arg":e,"st1":style_json(&s1),"get":0})
+            },
             {
                 let (name, f) = convs[r.below(convs.len())];
                 json!({"k":"set","op":"conv","st0":style_json(&s0),"arg":name,"st1":style_json(&f(s0)),"get":0})
@@ -125,6 +136,43 @@ pub fn record(seed: u64, thorough: bool, shards: usize, prefix: &str) -> Value {
         for ev in evs {
             writeln!(files[n % shards], "{ev}").unwrap();
             n += 1;
+        }
+    }
+    // colour constructors (.on / .on_default for the four colour types), Style::is_plain, From conversions
+    {
+        use anstyle::{AnsiColor, Color, RgbColor};
+        let mut push = |ev: Value| {
+            writeln!(files[n % shards], "{ev}").unwrap();
+            n += 1;
+        };
+        for _ in 0..(if thorough { 6000 } else { 800 }) {
+            let b = gen_color(&mut r);
+            let bgc = b.unwrap_or(Color::Ansi(AnsiColor::Black));
+            let a = ANSI[r.below(16)];
+            let i = Ansi256Color(r.byte());
+            let rgb = RgbColor(r.byte(), r.byte(), r.byte());
+            let col = gen_color(&mut r).unwrap_or(Color::Rgb(rgb));
+            push(json!({"k":"on","ty":"AnsiColor","c":col_json(Some(Color::Ansi(a))),"b":col_json(Some(bgc)),"on":style_json(&a.on(bgc)),"on_default":style_json(&a.on_default())}));
+            push(json!({"k":"on","ty":"Ansi256Color","c":["idx", i.0],"b":col_json(Some(bgc)),"on":style_json(&i.on(bgc)),"on_default":style_json(&i.on_default())}));
+            push(json!({"k":"on","ty":"RgbColor","c":["rgb", rgb.0, rgb.1, rgb.2],"b":col_json(Some(bgc)),"on":style_json(&rgb.on(bgc)),"on_default":style_json(&rgb.on_default())}));
+            push(json!({"k":"on","ty":"Color","c":col_json(Some(col)),"b":col_json(Some(bgc)),"on":style_json(&col.on(bgc)),"on_default":style_json(&col.on_default())}));
+            // typed backgrounds go through Into<Color>
+            push(json!({"k":"on","ty":"Color.on(AnsiColor)","c":col_json(Some(col)),"b":["ansi", ansi_index(a)],"on":style_json(&col.on(a)),"on_default":style_json(&col.on_default())}));
+            push(json!({"k":"on","ty":"Color.on(RgbColor)","c":col_json(Some(col)),"b":["rgb", rgb.0, rgb.1, rgb.2],"on":style_json(&col.on(rgb)),"on_default":style_json(&col.on_default())}));
+            let s0 = if r.chance(1, 3) { Style::new() } else { gen_style(&mut r) };
+            push(json!({"k":"plain","st":style_json(&s0),"res":s0.is_plain(),"new_is_plain":Style::new().is_plain() && Style::default().is_plain()}));
+            let k = ansi_index(a);
+            push(json!({"k":"from","which":"ansi->color","n":[k],"r":col_json(Some(Color::from(a)))}));
+            push(json!({"k":"from","which":"idx->color","n":[i.0],"r":col_json(Some(Color::from(i)))}));
+            push(json!({"k":"from","which":"u8->color","n":[i.0],"r":col_json(Some(Color::from(i.0)))}));
+            push(json!({"k":"from","which":"rgb->color","n":[rgb.0, rgb.1, rgb.2],"r":col_json(Some(Color::from(rgb)))}));
+            push(json!({"k":"from","which":"tuple->color","n":[rgb.0, rgb.1, rgb.2],"r":col_json(Some(Color::from((rgb.0, rgb.1, rgb.2))))}));
+            push(json!({"k":"from","which":"ansi->idx","n":[k],"r":["idx", Ansi256Color::from(a).0]}));
+            push(json!({"k":"from","which":"u8->idx","n":[i.0],"r":["idx", Ansi256Color::from(i.0).0]}));
+            let t = RgbColor::from((rgb.0, rgb.1, rgb.2));
+            push(json!({"k":"from","which":"tuple->rgb","n":[rgb.0, rgb.1, rgb.2],"r":["rgb", t.r(), t.g(), t.b()]}));
+            let e = (r.next() & 0xfff) as u32;
+            push(json!({"k":"from_eff","eff":e,"st":style_json(&Style::from(effects_from_bits(e as u16)))}));
         }
     }
     for (i, a) in ANSI.iter().enumerate() {
